@@ -185,6 +185,8 @@ func checkC09(r *Report) {
 	nK := skipCounterRule(r, p, "C09.g/SKIP-COUNTER", "semver")
 	r.floor("C09.g/SKIP-COUNTER", "merge loops (inner index starting at the outer index + 1) in package semver", nK, 1)
 	boundsCopiedRule(r, p, "C09.i/BOUNDS-COPIED")
+	nNP := numsPaddedRule(r, p, "C09.j/NUMS-PADDED")
+	r.floor("C09.j/NUMS-PADDED", "same-numbers tests between two versions in package semver", nNP, 2)
 	nS := successorRule(r, p, "C09.h/SUCCESSOR")
 	r.floor("C09.h/SUCCESSOR", "successor computations (inc outside the operator desugaring) in package semver", nS, 1)
 	nF := canonFreshRule(r, p, "C09.f/CANON-FRESH")
@@ -667,4 +669,57 @@ func boundsCopiedRule(r *Report, p *Prog, rule string) {
 	default:
 		r.ok(rule, key, p.pos(at), "every *Version argument is the result of Version.copy()")
 	}
+}
+
+// numsPaddedRule (C09.j NUMS-PADDED): 1.2-alpha and 1.2.0-alpha are the same
+// version: compare, numsEqual, Intersect and canon all pad the shorter number
+// list with zeros. A test that two versions "have the same numbers" made with
+// a length-sensitive slice comparison (equalValues on the two num slices)
+// answers differently for the two spellings, so whether a prerelease is
+// admitted by a span depends on how the bound, or the candidate, was written,
+// and on which operand of an intersection supplied the bound.
+func numsPaddedRule(r *Report, p *Prog, rule string) int {
+	isNum := func(v ssa.Value) bool {
+		ld, ok := v.(*ssa.UnOp)
+		if !ok {
+			return false
+		}
+		fa, ok := ld.X.(*ssa.FieldAddr)
+		if !ok {
+			return false
+		}
+		pt, ok := fa.X.Type().Underlying().(*types.Pointer)
+		if !ok || !strings.HasSuffix(pt.Elem().String(), "semver.Version") {
+			return false
+		}
+		return pt.Elem().Underlying().(*types.Struct).Field(fa.Field).Name() == "num"
+	}
+	n := 0
+	for _, f := range p.Funcs {
+		if f.Pkg == nil || f.Blocks == nil || f.Synthetic != "" || f.Pkg.Pkg.Path() != modPrefix+"semver" {
+			continue
+		}
+		per := 0
+		for _, b := range f.Blocks {
+			for _, in := range b.Instrs {
+				c, ok := in.(*ssa.Call)
+				if !ok {
+					continue
+				}
+				switch staticCalleeName(c) {
+				case "semver.numsEqual":
+					n++
+					per++
+					r.ok(rule, fmt.Sprintf("%s: same-numbers test #%d pads", fnKey(f), per), p.pos(c.Pos()), "numsEqual")
+				case "semver.equalValues":
+					if len(c.Common().Args) == 2 && isNum(c.Common().Args[0]) && isNum(c.Common().Args[1]) {
+						n++
+						per++
+						r.bad(rule, fmt.Sprintf("%s: same-numbers test #%d pads", fnKey(f), per), p.pos(c.Pos()), "the number lists of two versions are compared with equalValues, which compares the lengths first: 1.2-alpha and 1.2.0-alpha, equal for compare, numsEqual, Intersect and canon, are different here, so a span admits or refuses a prerelease depending on how its bound (or the candidate) was written")
+					}
+				}
+			}
+		}
+	}
+	return n
 }
